@@ -98,6 +98,8 @@ class GotranPythonCodePrinter(PythonCodePrinter):
 
         else:
             conds, exprs = _print_Piecewise(self, expr)
+            if len(conds) == 1:
+                return f"({exprs[0]})"
 
             for c, e in zip(conds, exprs):
                 result.append("numpy.where(")
